@@ -32,6 +32,31 @@ Calibration on the pinned tree (thorough tier, 1500 configurations, seeds 0, 1, 
   (a) 1.5e-13 (b) 4.3e-14 (c) 8.4e-14 (d) 1.3e-13 (e) 4.1e-14 (f) spherical 8.8e-15, Cartesian
   5.8e-15, radial 1.3e-14, finite differences 5.0e-10 (g) 4.3e-14 (h) 0 (identical operations).
   The 15 source-level mutants of selftest() give >= 1e-3 (all reported).
+
+Audit extension (same technique: BandLimit.tla first, the harness only drives and observes):
+ * construction routes - BandLimit!ActualDegs derives the degrees the shells must HAVE from the request (degrees that
+   are not tabulated, sizes, a single broadcast value, pruned sectors by degree / by size with integer radii and
+   bounds); laws BandLimit!RouteLaws (rounding up, minimal, idempotent, never lowers the requested band limit, size
+   route inverse to the degree route) for every request <= 50; the observed grid.degrees are judged by TLC
+   (RouteConforms) and every clause (a)-(h) runs on these grids too (_configs_ext: + ndarray / NumPy-integer degrees,
+   other spellings of the method name (BandLimit!Spell), default centre, two and three shells).
+ * call modes x point classes - BandLimit!ModeKind says what (deriv, deriv_spherical, only_radial_deriv) returns,
+   BandLimit!PointClasses / DemandedKinds where: generic points, beyond the last / below the first node, exactly on
+   the +z / -z axis (Cartesian gradient from BandLimit!AxisMeridian, cross-checked against differences of the
+   interpolant), the centre (everything but the Cartesian gradient).  Positional and keyword calls alternate.
+   KNOWN FINDING (known_findings.d/C09.json): on the axis the library reports d/dphi = 0 and loses the transverse
+   Cartesian components; those components have their own keys (m:axis-cartesian-transverse, m:axis-spherical-polar,
+   m:centre-spherical-polar, m:axis-cartesian-vs-finite-differences), everything else on the axis (values, radial
+   derivatives 1-3, d/dr, d/dtheta, axial Cartesian component, finiteness) is judged strictly.
+ * input forms (harness-level relations) - function values as float32 / longdouble / int64 / bool / strided /
+   read-only arrays, stacked (2, 2, N) values for integrate_angular_coordinates, points as Fortran-ordered / float32 /
+   int64 / strided / read-only arrays, one point of shape (3,), no points, a point array refreshed in place, inputs
+   left unmodified; molecular clause against FRESHLY built atomic grids for 2 and 3 atoms in every specified call mode,
+   integer values, MolGrid.from_size.
+Calibration of the new clauses (quick tier, seeds 0-5, and thorough; max scaled deviation on the pinned tree):
+  exact clauses m:* 7.1e-15, i:* 1.9e-15 (0 except longdouble), p:* 3.6e-15, a:stacked 3.5e-14, h:*fresh-grids 2.1e-16
+  -> TOL = 1e-9 (>= 4 orders of slack; the 17 new mutants of selftest() give >= 1e-7, almost all O(1));
+  m:axis-rule-vs-finite-differences 2.2e-9 -> TOL_FD_AXIS = 1e-5 (error budget in _mode_clauses; the defect is O(1)).
 """
 from __future__ import annotations
 
@@ -40,6 +65,7 @@ import json
 import math
 import random
 import textwrap
+import time
 import warnings
 
 import numpy as np
@@ -51,6 +77,7 @@ from ..expr_eval import evaluate
 PROP = "C09"
 TOL = 1e-9
 TOL_FD = 1e-6
+TOL_FD_AXIS = 1e-5   # finite differences next to the z axis (see _mode_clauses for the error budget)
 DCAP = 26          # largest shell degree used in replayed configurations (cost)
 
 
@@ -89,6 +116,62 @@ def _configs(tabs, n, rng):
                     "rotate": 0 if k % 2 == 0 else rng.randint(1, 10 ** 6),
                     "fseed": rng.randint(0, 2 ** 31 - 1)})
     return out
+
+
+def _configs_ext(tabs, n, rng):
+    """Audit extension: configurations that reach the anchored code through the other construction
+    routes (requested degrees that are not tabulated, sizes, pruned sectors by degree / by size, a
+    single broadcast value), other spellings of the method name, degrees handed over as ndarray /
+    NumPy integers, the default centre, two and three shells.  Only the REQUEST is drawn here; the
+    degrees the shells must have come from BandLimit!ActualDegs (TLC run #1)."""
+    out = []
+    methods = ["lebedev", "spherical", "maxdet", "ahrens_beylkin"]
+    kinds = ("unsupported", "sizes", "pruned", "pruned-sizes", "single-degree", "single-size", "few-shells", "ndarray-degrees")
+    for j in range(n):
+        m = methods[j % 4] if j < 8 else rng.choice(methods)
+        kind = kinds[j % len(kinds)] if j < 16 else rng.choice(kinds)
+        tab = [(d, sz) for d, sz in tabs[m]["deg"] if 1 <= d <= DCAP]
+        smax = max(sz for _, sz in tab)
+        ns = rng.randint(2, 3) if kind == "few-shells" else rng.randint(4, 8)
+        rm = sorted(rng.sample(range(80, 2400), ns))
+        rm = [2 * x for x in rm]                        # even 1/1000 bohr, distinct
+        r0 = (j % 4 == 1)
+        if r0:
+            rm[0] = 0
+        route, req, bounds, degform = "degrees", [], [], "list"
+        if kind == "unsupported":
+            req = [rng.randint(0, DCAP) for _ in range(ns)]
+        elif kind == "sizes":
+            route, req = "sizes", [rng.randint(1, smax) for _ in range(ns)]
+        elif kind in ("pruned", "pruned-sizes"):
+            nb = rng.randint(1, 3)
+            bounds = sorted(2 * x + 1 for x in rng.sample(range(100, 2300), nb))     # odd: never on a radius
+            route = kind
+            req = [rng.randint(0, DCAP) for _ in range(nb + 1)] if kind == "pruned" else [rng.randint(1, smax) for _ in range(nb + 1)]
+        elif kind == "single-degree":
+            req, degform = [rng.randint(0, DCAP)], "single"
+        elif kind == "single-size":
+            route, req, degform = "sizes", [rng.randint(1, smax)], "single"
+        elif kind == "few-shells":
+            req = [rng.choice(tab)[0] for _ in range(ns)]
+        else:
+            req, degform = [rng.randint(0, DCAP) for _ in range(ns)], rng.choice(["ndarray", "npint", "int32"])
+        out.append({"id": 100000 + j, "method": m, "degs": None, "kind": kind, "r": [x / 1000.0 for x in rm],
+                    "w": [rng.uniform(0.2, 1.5) for _ in range(ns)], "r0": r0,
+                    "center": [0.0, 0.0, 0.0] if j % 3 == 0 else [rng.uniform(-2, 2) for _ in range(3)],
+                    "center_none": j % 6 == 0, "rotate": 0 if j % 2 == 1 else rng.randint(1, 10 ** 6),
+                    "fseed": rng.randint(0, 2 ** 31 - 1), "route": route, "req": req, "nshell": ns, "rmilli": rm,
+                    "bounds": bounds, "spell": j % 3, "degform": degform, "radius": 2.0 if j % 2 else 1.0})
+    return out
+
+
+def _spec_record(c):
+    """What BandLimit.tla is told about a configuration (Obs_bandlimit.ObsB record, without observations)."""
+    if "route" in c:
+        return {"method": c["method"], "degs": [], "nsplines": 0, "nonzero": [], "route": c["route"], "req": c["req"],
+                "nshell": c["nshell"], "rmilli": c["rmilli"], "bounds": c["bounds"], "spell": c["spell"], "obsdegs": []}
+    return {"method": c["method"], "degs": c["degs"], "nsplines": 0, "nonzero": [], "route": "degrees", "req": c["degs"],
+            "nshell": len(c["degs"]), "rmilli": [], "bounds": [], "spell": 0, "obsdegs": []}
 
 
 def _obs_module(wd, phase, dmax, nshell, fname):
@@ -164,8 +247,25 @@ def _build(cfg):
     rg = OneDGrid(np.array(cfg["r"]), np.array(cfg["w"]), (0, np.inf))
     with warnings.catch_warnings():
         warnings.simplefilter("ignore")
-        return AtomGrid(rg, degrees=list(cfg["degs"]), center=np.array(cfg["center"]), rotate=int(cfg["rotate"]),
-                        method=cfg["method"])
+        if "route" not in cfg:
+            return AtomGrid(rg, degrees=list(cfg["degs"]), center=np.array(cfg["center"]), rotate=int(cfg["rotate"]),
+                            method=cfg["method"])
+        # audit extension: the other construction routes (the request is cfg["req"]; cfg["degs"] are the degrees
+        # BandLimit!ActualDegs derives from it, cfg["method_arg"] the spelling BandLimit!Spell prescribes)
+        kw = {"rotate": int(cfg["rotate"]), "method": cfg.get("method_arg", cfg["method"])}
+        if not (cfg.get("center_none") and not any(cfg["center"])):
+            kw["center"] = np.array(cfg["center"])
+        req = [int(x) for x in cfg["req"]]
+        if cfg["route"] == "degrees":
+            form = cfg.get("degform", "list")
+            d = {"ndarray": np.array(req), "int32": np.array(req, dtype=np.int32), "npint": [np.int64(x) for x in req]}.get(form, req)
+            return AtomGrid(rg, degrees=d, **kw)
+        if cfg["route"] == "sizes":
+            return AtomGrid(rg, sizes=req, **kw)
+        rs = [b / (1000.0 * cfg["radius"]) for b in cfg["bounds"]]       # radius * rs == b / 1000 exactly (radius 1 or 2)
+        if cfg["route"] == "pruned":
+            return AtomGrid.from_pruned(rg, cfg["radius"], r_sectors=rs, d_sectors=req, **kw)
+        return AtomGrid.from_pruned(rg, cfg["radius"], r_sectors=rs, s_sectors=req, **kw)
 
 
 def _jac_float(jac, r, th, ph):
@@ -177,6 +277,221 @@ def _jac_float(jac, r, th, ph):
             for j in range(3):
                 J[n, i, j] = evaluate(jac[i][j], env, "float")
     return J
+
+
+def _oracle(sp, basisl, r, th, ph):
+    """Values / radial derivatives / spherical derivative of SUM_k s_k(r) Y_k(theta, phi) at spherical coordinates
+    (the splines are the ones radial_component_splines returned; harmonics from the calibrated vf/ylm.py, whose
+    angular derivatives are true derivatives at the poles as well)."""
+    r, th, ph = (np.asarray(a, dtype=float) for a in (r, th, ph))
+    Y = ylm.ylm_angles(basisl, th, ph)
+    dth, dph = ylm.dylm_angles(basisl, th, ph)
+    sn = [np.array([s(r, n) for s in sp]) for n in range(4)]
+    return {"value": np.einsum("kn,kn->n", sn[0], Y), "radial": [np.einsum("kn,kn->n", sn[n], Y) for n in range(4)],
+            "fr": np.einsum("kn,kn->n", sn[1], Y), "ft": np.einsum("kn,kn->n", sn[0], dth), "fp": np.einsum("kn,kn->n", sn[0], dph)}
+
+
+def _sph3(got, n):
+    """The spherical derivative is returned as (dr.., dtheta.., dphi..) stacked (or (n, 3)); -> (3, n)."""
+    got = np.asarray(got, dtype=float)
+    if got.shape == (n, 3):
+        return got.T
+    return got.reshape(3, n) if got.size == 3 * n else got
+
+
+def _mode_clauses(grid, cfg, C, rep, tag, sp, interp, S, center, rpts, basisl, em, generic):
+    """Every call mode of the interpolant (BandLimit!CallModes / ModeKind) at every class of evaluation points
+    (BandLimit!PointClasses / DemandedKinds): generic, beyond the last / below the first node, exactly on the
+    +z / -z axis, the centre.  Odd-numbered modes are called with keywords, even ones positionally."""
+    modes, classes, merid = _SHARED["modes"], _SHARED["classes"], _SHARED["meridian"]
+    rng = np.random.default_rng([int(cfg["fseed"]), 77, len(tag)])
+    rmax, rmin = float(rpts[-1]), float(rpts[0])
+
+    def dirs(n):
+        d = rng.normal(size=(n, 3))
+        d /= np.linalg.norm(d, axis=1)[:, None]
+        bad = np.hypot(d[:, 0], d[:, 1]) < 0.05
+        d[bad] = np.array([0.6, 0.0, 0.8])
+        return d
+
+    for cl in classes:
+        name, polar = cl["name"], int(cl["polar"])
+        if name == "generic":
+            P, r, th, ph = generic
+        elif name in ("outside", "inside"):
+            if name == "inside" and rmin < 0.1:
+                continue
+            rr = rng.uniform(1.02 * rmax, 1.25 * rmax, 3) if name == "outside" else rng.uniform(0.5 * rmin, 0.97 * rmin, 3)
+            d = dirs(3)
+            P = center + rr[:, None] * d
+            r, u = _dirs(P, center)
+            th, ph = np.arctan2(u[:, 1], u[:, 0]), np.arccos(np.clip(u[:, 2], -1, 1))
+        elif name in ("north", "south"):
+            sgn = 1.0 if name == "north" else -1.0
+            # radii in the middle part of node intervals: the finite-difference stencils below (step <= 1/16 of the
+            # interval) then stay inside one polynomial piece of the splines
+            gaps = np.diff(rpts)
+            cand = [i for i in range(len(gaps)) if rpts[i] + 0.35 * gaps[i] >= 0.2]
+            pick = rng.choice(cand, size=3)
+            rr = rpts[pick] + gaps[pick] * rng.uniform(0.35, 0.65, 3)
+            hstep = np.minimum(1e-3 * rr, gaps[pick] / 16.0)
+            P = center + sgn * np.stack([0 * rr, 0 * rr, rr], axis=1)
+            r = np.linalg.norm(P - center, axis=1)
+            if np.any((P - center)[:, :2] != 0.0):
+                continue                                  # not exactly on the axis after rounding: not this class
+            th, ph = np.zeros(3), np.full(3, 0.0 if polar == 1 else math.pi)
+        else:   # centre: canonical angles theta = phi = 0
+            P, r, th, ph = center[None, :].copy(), np.zeros(1), np.zeros(1), np.zeros(1)
+        n = len(P)
+        o = _oracle(sp, basisl, r, th, ph)
+        axis = polar != 0
+        where = {"generic": "call-mode", "outside": "outside-range", "inside": "outside-range", "north": "axis", "south": "axis",
+                 "centre": "centre"}[name]
+        for im, md in enumerate(modes):
+            kind = md["kind"]
+            if kind not in cl["kinds"]:
+                continue
+            nd, sph, rad = int(md["deriv"]), bool(md["sph"]), bool(md["rad"])
+            extra = {"class": name, "mode": md, "points": P.tolist()}
+            try:
+                with warnings.catch_warnings():
+                    warnings.simplefilter("ignore")
+                    got = interp(P.copy(), deriv=nd, deriv_spherical=sph, only_radial_deriv=rad) if im % 2 else interp(P.copy(), nd, sph, rad)
+            except Exception as e:
+                rep.violation(f"m:{where}-{kind}:exception{tag}", f"interpolant(points[{name}], deriv={nd}, deriv_spherical={sph}, "
+                              f"only_radial_deriv={rad}) raised {type(e).__name__}: {e}", {"config": cfg, **extra})
+                continue
+            if kind == "value":
+                C.cmp(f"m:{where}-value" + tag, cfg, got, o["value"], S, extra=extra)
+            elif kind == "radial":
+                C.cmp(f"m:{where}-radial" + tag, cfg, got, o["radial"][nd], max(S, float(np.abs(o["radial"][nd]).max())), extra=extra)
+            elif kind == "spherical":
+                exp3 = np.stack([o["fr"], o["ft"], o["fp"]])
+                Sd = max(S, float(np.abs(exp3).max()))
+                g3 = _sph3(got, n)
+                if g3.shape != (3, n):
+                    C.cmp(f"m:{where}-spherical" + tag, cfg, g3, exp3, Sd, extra=extra)
+                elif axis:      # the polar component on the axis is judged under its own key
+                    C.cmp(f"m:{where}-spherical-r-theta" + tag, cfg, g3[:2], exp3[:2], Sd, extra=extra)
+                    C.cmp(f"m:{where}-spherical-polar" + tag, cfg, g3[2], exp3[2], Sd, extra=extra)
+                else:
+                    C.cmp(f"m:{where}-spherical" + tag, cfg, g3, exp3, Sd, extra=extra)
+            elif kind == "cartesian":
+                got = np.asarray(got, dtype=float)
+                if not axis:
+                    J = _jac_float(em["jac"], r, th, ph)
+                    gexp = np.array([np.linalg.solve(J[i].T, np.array([o["fr"][i], o["ft"][i], o["fp"][i]])) for i in range(n)])
+                    C.cmp(f"m:{where}-cartesian" + tag, cfg, got, gexp, max(S, float(np.abs(gexp).max())), extra=extra)
+                    continue
+                # on the axis: BandLimit!AxisMeridian - x from the meridian theta = 0, y from theta = pi/2
+                ox = _oracle(sp, basisl, r, np.full(n, merid["x"] * math.pi / 2), ph)
+                oy = _oracle(sp, basisl, r, np.full(n, merid["y"] * math.pi / 2), ph)
+                gexp = np.stack([np.cos(ph) / r * ox["fp"], np.cos(ph) / r * oy["fp"], np.cos(ph) * o["fr"]], axis=1)
+                Sc = max(S, float(np.abs(gexp).max()))
+                if got.shape != (n, 3):
+                    C.cmp("m:axis-cartesian-axial" + tag, cfg, got, gexp, Sc, extra=extra)
+                    continue
+                C.cmp("m:axis-cartesian-finite" + tag, cfg, np.where(np.isfinite(got), 0.0, np.inf), np.zeros((n, 3)), 1.0, extra=extra)
+                C.cmp("m:axis-cartesian-axial" + tag, cfg, got[:, 2], gexp[:, 2], Sc, extra=extra)
+                C.cmp("m:axis-cartesian-transverse" + tag, cfg, got[:, :2], gexp[:, :2], Sc, extra=extra)
+                # Richardson-extrapolated central differences with a step of 1e-3 r.  Error budget: the library finds the
+                # polar angle with arccos, which next to the axis loses eps r^2 / h^2 (8e-10 at h / 2; it would be 1e-7
+                # with the absolute step 2e-4 used for generic points); truncation (h l / r)^4 / 30 ~ 1e-9 for l = 13.
+                # Measured worst 2.2e-9 (a third Richardson level only amplifies the arccos noise: 5e-9) -> TOL_FD_AXIS.
+                h = hstep[:, None]
+                fd = np.zeros((n, 3))
+                for j in range(3):
+                    e = np.zeros(3)
+                    e[j] = 1.0
+                    d1 = (interp(P + h * e) - interp(P - h * e)) / (2 * hstep)
+                    d2 = (interp(P + h / 2 * e) - interp(P - h / 2 * e)) / hstep
+                    fd[:, j] = np.asarray((4 * d2 - d1) / 3, dtype=float)
+                # the specification's axis rule against the interpolant itself (independent of the library's derivatives)
+                C.cmp("m:axis-rule-vs-finite-differences" + tag, cfg, gexp, fd, Sc * max(1.0, 1.0 / r.min()), tol=TOL_FD_AXIS, extra=extra)
+                C.cmp("m:axis-cartesian-vs-finite-differences" + tag, cfg, got, fd, Sc * max(1.0, 1.0 / r.min()), tol=TOL_FD_AXIS, extra=extra)
+
+
+def _form_clauses(grid, cfg, C, rep, tag, f, f0, g00, sp, interp, S, X, expv, sqrt4pi):
+    """Other representations of the same inputs must give the same answers (harness-level relations), inputs are
+    left alone, degenerate point sets are answered."""
+    ns = len(cfg["r"])
+    fkeep, Xkeep = f.copy(), X.copy()
+
+    def guarded(key, fn):
+        try:
+            with warnings.catch_warnings():
+                warnings.simplefilter("ignore")
+                return fn()
+        except Exception as e:
+            rep.violation(f"{key}:exception{tag}", f"{key}: {type(e).__name__}: {e} (method={cfg['method']} degrees={cfg['degs']})", cfg)
+            return None
+
+    # -- function values in other dtypes / memory layouts: same as the float64 copy of the same numbers
+    rr_ = np.array(cfg["r"])
+
+    def answers(v):
+        I_ = grid.interpolate(v)
+        return (np.asarray(grid.integrate_angular_coordinates(v), dtype=float), np.asarray(grid.spherical_average(v)(rr_), dtype=float),
+                np.asarray(I_(X), dtype=float), np.asarray(I_(X[:4], 1, False, True), dtype=float))
+
+    q = np.rint(8.0 * f / S)
+    ro = f.copy()
+    ro.setflags(write=False)
+    forms = [("float32", f.astype(np.float32)), ("longdouble", f.astype(np.longdouble)), ("int64", q.astype(np.int64)),
+             ("bool", f > 0), ("strided", np.repeat(f, 2)[::2]), ("readonly", ro)]
+    bf = guarded("i:values-float64", lambda: answers(f.copy()))
+    for name, v in forms:
+        ref = np.array(v, dtype=float)
+        Sv = max(1e-3, float(np.abs(ref).max()))
+        before = np.array(v, copy=True)
+        a = guarded(f"i:values-{name}", lambda: answers(v))
+        b = bf if np.array_equal(ref, f) else guarded("i:values-float64", lambda: answers(ref))
+        if a is None or b is None:
+            continue
+        for part, x, y in zip(("angular", "average", "interpolant", "radial-derivative"), a, b):
+            C.cmp(f"i:values-{name}" + tag, cfg, x, y, Sv * (10.0 if part == "radial-derivative" else 1.0), extra={"part": part})
+        if not (before.dtype == np.asarray(v).dtype and np.array_equal(before, v)):
+            C._fail("i:inputs-unchanged" + tag, cfg, float("inf"), f"function values ({name}) were modified by the library", None)
+    # -- stacked functions: integrate_angular_coordinates documents (..., N) -> (..., M)
+    F3 = np.stack([np.stack([f, 2.0 * f]), np.stack([-f, f0])])
+    a = guarded("a:angular-integral-stacked", lambda: np.asarray(grid.integrate_angular_coordinates(F3), dtype=float))
+    a0 = guarded("a:angular-integral-stacked", lambda: np.asarray(grid.integrate_angular_coordinates(f0), dtype=float))
+    if a is not None and a0 is not None:
+        e3 = np.stack([np.stack([sqrt4pi * g00, 2 * sqrt4pi * g00]), np.stack([-sqrt4pi * g00, a0])])
+        C.cmp("a:angular-integral-stacked" + tag, cfg, a, e3, max(S, float(np.abs(f0).max())))
+    # -- evaluation points in other dtypes / layouts / shapes
+    Xi = np.rint(X).astype(np.int64)
+    pforms = [("fortran", np.asfortranarray(X), X), ("float32", X.astype(np.float32), X.astype(np.float32).astype(float)),
+              ("int64", Xi, Xi.astype(float)), ("strided", np.repeat(X, 2, axis=0)[::2], X)]
+    ro = X.copy()
+    ro.setflags(write=False)
+    pforms.append(("readonly", ro, X))
+    for name, P, Pref in pforms:
+        a = guarded(f"p:points-{name}", lambda: (np.asarray(interp(P), dtype=float), np.asarray(interp(P, 1, False, True), dtype=float)))
+        b = guarded("p:points-float64", lambda: (np.asarray(interp(Pref), dtype=float), np.asarray(interp(Pref, 1, False, True), dtype=float)))
+        if a is None or b is None:
+            continue
+        C.cmp(f"p:points-{name}" + tag, cfg, a[0], b[0], S)
+        C.cmp(f"p:points-{name}" + tag, cfg, a[1], b[1], max(S, float(np.abs(b[1][np.isfinite(b[1])]).max()) if np.isfinite(b[1]).any() else S))
+    one = guarded("p:single-point", lambda: (np.asarray(interp(X[0].copy()), dtype=float), np.asarray(interp(X[0].copy(), 1), dtype=float),
+                                             np.asarray(interp(X[:1]), dtype=float), np.asarray(interp(X[:1], 1), dtype=float)))
+    if one is not None:
+        C.cmp("p:single-point" + tag, cfg, one[0].reshape(-1), one[2].reshape(-1), S)
+        C.cmp("p:single-point" + tag, cfg, one[1].reshape(-1), one[3].reshape(-1), max(S, float(np.abs(one[3]).max())))
+    none = guarded("p:no-points", lambda: [np.asarray(interp(np.zeros((0, 3)))), np.asarray(interp(np.zeros((0, 3)), 1)),
+                                            np.asarray(interp(np.zeros((0, 3)), 1, True)), np.asarray(interp(np.zeros((0, 3)), 2, False, True))])
+    if none is not None and any(a.size for a in none):
+        C._fail("p:no-points" + tag, cfg, float("inf"), f"no evaluation points, but results of sizes {[a.size for a in none]}", None)
+    # -- the same array of points refreshed in place between two calls
+    X2 = X.copy()
+    v1 = guarded("p:points-refreshed-in-place", lambda: np.asarray(interp(X2), dtype=float))
+    X2[:] = X[::-1]
+    v2 = guarded("p:points-refreshed-in-place", lambda: np.asarray(interp(X2), dtype=float))
+    if v1 is not None and v2 is not None:
+        C.cmp("p:points-refreshed-in-place" + tag, cfg, np.concatenate([v1, v2]), np.concatenate([expv, expv[::-1]]), S)
+    if not (np.array_equal(f, fkeep) and np.array_equal(X, Xkeep)):
+        C._fail("i:inputs-unchanged" + tag, cfg, float("inf"), "function values or evaluation points were modified by the library", None)
+    C.rep.evaluated(2, ("i:inputs-unchanged", cfg["id"]))
 
 
 def _one_config(cfg, ex, em, C, rep, sqrt4pi):
@@ -192,13 +507,19 @@ def _one_config(cfg, ex, em, C, rep, sqrt4pi):
     rw = np.array(cfg["w"])
     ns = len(rpts)
     idx = np.asarray(grid.indices)
-    if list(map(int, grid.degrees)) != list(cfg["degs"]):
-        rep.violation(f"degrees:{cfg['method']}:{cfg['degs']}", f"grid.degrees = {list(grid.degrees)} for supported request {cfg['degs']}", cfg)
-        return None
+    obsdegs = [int(d) for d in grid.degrees]
+    obs = dict(_spec_record(cfg), degs=list(cfg["degs"]), nsplines=-1, nonzero=[], obsdegs=obsdegs)
+    if obsdegs != list(cfg["degs"]) or len(idx) != ns + 1:
+        rep.violation(f"degrees:{cfg['method']}:{cfg.get('route', 'degrees')}:{cfg.get('req', cfg['degs'])}",
+                      f"grid.degrees = {obsdegs}; the specification derives {list(cfg['degs'])} from the request "
+                      f"{cfg.get('route', 'degrees')} {cfg.get('req', cfg['degs'])} (method {cfg['method']})", cfg)
+        return obs if "route" in cfg else None
+    if str(grid.method) != cfg["method"]:
+        rep.violation(f"method-name:{cfg.get('method_arg', cfg['method'])}", f"grid.method = {grid.method!r} for a grid requested with "
+                      f"method={cfg.get('method_arg', cfg['method'])!r}", cfg)
     shell = np.repeat(np.arange(ns), np.diff(idx))
     # ---- generic function: integer observables (also: the cached basis is built with THIS function)
     f0 = rng.normal(size=grid.size) + 2.0
-    obs = {"method": cfg["method"], "degs": list(cfg["degs"]), "nsplines": -1, "nonzero": []}
     try:
         sp0 = grid.radial_component_splines(f0)
         kn = np.array([s(rpts) for s in sp0])            # (rows, shells)
@@ -328,6 +649,11 @@ def _one_config(cfg, ex, em, C, rep, sqrt4pi):
                 d2 = (interp(Xd + h / 2 * e) - interp(Xd - h / 2 * e)) / h
                 fd[:, j] = (4 * d2 - d1) / 3
             C.cmp("f:derivative-vs-finite-differences" + tag, cfg, gcart, fd, Sc * max(1.0, 1.0 / rd.min()), tol=TOL_FD)
+            # ---- audit extension: call modes x point classes (tables emitted by BandLimit.tla), input forms
+            if vname == "all":
+                _mode_clauses(grid, cfg, C, rep, tag, sp, interp, S, center, rpts, basisl, em, (Xd, rd, th, ph))
+            if vname == "all" and cfg["id"] % _SHARED.get("form_every", 2) == 0:
+                _form_clauses(grid, cfg, C, rep, tag, f, f0, g00, sp, interp, S, X, expv, sqrt4pi)
         except Exception as e:
             rep.violation(f"exception{tag}", f"{type(e).__name__}: {e} (method={cfg['method']} degrees={cfg['degs']} r0={cfg['r0']})", cfg)
     return obs
@@ -378,6 +704,81 @@ def _mol_clause(cfgs, C, rep, rng):
             rep.violation(f"molgrid:exception[{natom}]", f"{type(e).__name__}: {e}", mcfg)
 
 
+def _mol_clause_ext(cfgs, C, rep, rng):
+    """Audit extension of (h): the sum is judged against FRESHLY built atomic grids (the molecule must not depend on
+    state left in its atomic grids), for two atoms as well, for every call mode that BandLimit!ModeKind specifies
+    (positional and keyword; the molecular callable spells the last switch only_radial_derivs), for integer
+    function values, with the inputs left alone; and a molecule made by MolGrid.from_size."""
+    from grid.molgrid import MolGrid
+    from grid.basegrid import OneDGrid
+    modes = _SHARED["modes"]
+    centres = np.array([[0.0, 0.0, 0.0], [1.4, 0.3, -0.2], [-0.8, 1.1, 0.9]])
+    mcfg = {"id": "molx-%d" % cfgs[0]["id"], "method": "mixed", "degs": [c["degs"] for c in cfgs[:3]], "r0": [c["r0"] for c in cfgs[:3]],
+            "rotate": [c["rotate"] for c in cfgs[:3]], "center": centres.tolist()}
+    for natom in (2, 3):
+        try:
+            def fresh():
+                return [_build(dict(c, center=centres[k].tolist(), center_none=False)) for k, c in enumerate(cfgs[:natom])]
+            ags, ref = fresh(), fresh()
+            size = sum(g.size for g in ags)
+            aim = rng.uniform(0.1, 1.0, size)
+            mol = MolGrid(np.array([1, 6, 8][:natom]), ags, aim, store=True)
+            ind = np.asarray(mol.indices)
+            X = rng.uniform(-1.5, 1.5, size=(10, 3)) + np.array([0.3, 0.2, 0.1])
+            keep = np.ones(len(X), dtype=bool)
+            for c in centres[:natom]:
+                d = X - c
+                keep &= (np.hypot(d[:, 0], d[:, 1]) > 0.05)
+            X = X[keep]
+            for vals in (("float",) if natom == 2 else ("int",)):
+                F = rng.normal(size=size) if vals == "float" else rng.integers(-9, 10, size=size)
+                Fk, Xk, aimk = F.copy(), X.copy(), aim.copy()
+                I = mol.interpolate(F)
+                parts = [ref[a].interpolate((np.asarray(F, dtype=float) * aim)[ind[a]: ind[a + 1]]) for a in range(natom)]
+                S = max(1.0, float(np.abs(F).max()))
+                for im, md in enumerate(modes):
+                    if md["kind"] == "unspecified" or (natom == 3 and (md["rad"] or int(md["deriv"]) > 1)):
+                        continue
+                    nd, sph, rad = int(md["deriv"]), bool(md["sph"]), bool(md["rad"])
+                    with warnings.catch_warnings():
+                        warnings.simplefilter("ignore")
+                        e = sum(np.asarray(p(X, nd, sph, rad), dtype=float) for p in parts)
+                        got = I(X, deriv=nd, deriv_spherical=sph, only_radial_derivs=rad) if im % 2 else I(X, nd, sph, rad)
+                    C.cmp(f"h:molecular-{md['kind']}-fresh-grids[{natom},{vals}]", mcfg, got, e, max(S, float(np.abs(e).max())),
+                          extra={"mode": md})
+                if not (np.array_equal(F, Fk) and F.dtype == Fk.dtype and np.array_equal(X, Xk) and np.array_equal(aim, aimk)
+                        and np.array_equal(mol.aim_weights, aimk)):
+                    C._fail("h:molecular-inputs-unchanged", mcfg, float("inf"), "function values, points or atomic weights were modified", None)
+        except Exception as e:
+            rep.violation(f"molgrid:exception-ext[{natom}]", f"{type(e).__name__}: {e}", mcfg)
+    # a molecule made by the from_size constructor (Becke weights, its own atomic grids)
+    try:
+        c0 = cfgs[0]
+        rg = OneDGrid(np.array(c0["r"]), np.array(c0["w"]), (0, np.inf))
+        with warnings.catch_warnings():
+            warnings.simplefilter("ignore")
+            mol = MolGrid.from_size(np.array([1, 8]), centres[:2].copy(), 30, rgrid=rg, rotate=int(c0["rotate"]) or 37, store=True)
+        F = rng.normal(size=mol.size)
+        I = mol.interpolate(F)
+        ind = np.asarray(mol.indices)
+        X = rng.uniform(-1.5, 1.5, size=(8, 3)) + np.array([0.33, 0.21, 0.12])
+        keep = np.ones(len(X), dtype=bool)
+        for c in centres[:2]:
+            keep &= (np.hypot((X - c)[:, 0], (X - c)[:, 1]) > 0.05)
+        X = X[keep]
+        with warnings.catch_warnings():
+            warnings.simplefilter("ignore")
+            refs = [_build({"r": c0["r"], "w": c0["w"], "route": "sizes", "req": [30], "center": centres[a].tolist(),
+                            "rotate": int(c0["rotate"]) or 37, "method": "lebedev"}) for a in range(2)]
+        parts = [refs[a].interpolate((F * np.asarray(mol.aim_weights))[ind[a]: ind[a + 1]]) for a in range(2)]
+        S = max(1.0, float(np.abs(F).max()))
+        C.cmp("h:molecular-from-size", mcfg, I(X), sum(p(X) for p in parts), S)
+        e1 = sum(p(X, 1) for p in parts)
+        C.cmp("h:molecular-from-size", mcfg, I(X, 1), e1, max(S, float(np.abs(e1).max())))
+    except Exception as e:
+        rep.violation("molgrid:exception-from-size", f"{type(e).__name__}: {e}", mcfg)
+
+
 class _Rec:
     """Stand-in for Report inside worker processes (merged by the parent)."""
 
@@ -393,6 +794,8 @@ class _Rec:
 
 
 _SHARED = {}
+_MEMO = {"enabled": False}      # selftest: the parts of a run that do not depend on grid's code (TLC laws and
+                                # expectations, calibration of vf/ylm.py) are computed once and reused for every mutant
 
 
 def _work(job):
@@ -400,6 +803,11 @@ def _work(job):
     rec = _Rec()
     C = _Check(rec)
     obs = []
+    if expect == "mol":          # audit extension: a molecular group (three configurations)
+        with warnings.catch_warnings():
+            warnings.simplefilter("ignore")
+            _mol_clause_ext(cfgs, C, rec, np.random.default_rng([int(cfgs[0]["fseed"]), 4711]))
+        return C.worst, C.bad, rec.ev, rec.viol, obs
     with warnings.catch_warnings():
         warnings.simplefilter("ignore")
         for cfg, ex in zip(cfgs, expect):
@@ -411,18 +819,29 @@ def _work(job):
 
 def run(tier: str) -> int:
     rep = Report(PROP, tier, "exploration")
+    t0 = time.time()
+    phase = {}
     rng = random.Random(rep.seed)
     wd = tlc.scratch(f"{PROP}-{tier}")
     tabs = extract.angular_tables()
     extract.write_tables_angular(wd, tabs)
     ncfg = 60 if tier == "quick" else 1500
     cfgs = _configs(tabs, ncfg, rng)
+    # audit extension: further construction routes / spellings / argument forms (own random stream, appended)
+    cfgs += _configs_ext(tabs, 16 if tier == "quick" else 300, random.Random(rep.seed * 7919 + 13))
 
     # ---- TLC #1: laws for every degree sequence + expectations for the drawn configurations -------
     with open(wd / "configs.json", "w") as f:
-        json.dump([{"method": c["method"], "degs": c["degs"], "nsplines": 0, "nonzero": []} for c in cfgs], f)
+        json.dump([_spec_record(c) for c in cfgs], f)
     _obs_module(wd, "expect", 50, 2 if tier == "quick" else 3, "configs.json")
-    r1 = tlc.run_tlc("BandLimit", "MC_BandLimit.cfg", wd, workers=16, timeout=1200).require_ok("BandLimit")
+    memo = _MEMO.get((tier, rep.seed)) if _MEMO["enabled"] else None
+    if memo is None:
+        r1 = tlc.run_tlc("BandLimit", "MC_BandLimit.cfg", wd, workers=8, timeout=1200).require_ok("BandLimit")
+        saved_files = None
+    else:
+        r1, saved_files = memo["r1"], memo["files"]
+        for name, text in saved_files.items():
+            (wd / name).write_text(text)
     rep.tlc(r1, "BandLimit(laws+expectations)")
     if r1.status == "violation":
         st = tlc.last_state(r1)
@@ -430,17 +849,34 @@ def run(tier: str) -> int:
     try:
         with open(wd / "bandlimit_expect.json") as f:
             expect = json.load(f)
+        with open(wd / "bandlimit_modes.json") as f:
+            mtab = json.load(f)
     except OSError:
         raise tlc.MachineryError("BandLimit.tla did not emit expectations\n" + r1.stdout[-2000:])
+    if len(expect) != len(cfgs):
+        raise tlc.MachineryError("BandLimit.tla emitted expectations for another number of configurations")
+    for c, ex in zip(cfgs, expect):
+        if "route" in c:
+            c["degs"] = [int(d) for d in ex["degs"]]          # BandLimit!ActualDegs(request)
+            c["method_arg"] = ex["method_arg"]               # BandLimit!Spell
+        elif [int(d) for d in ex["degs"]] != list(c["degs"]):
+            raise tlc.MachineryError(f"tabulated degrees {c['degs']} are not fixed points of BandLimit!EffDeg: {ex['degs']}")
 
+    phase["tlc_laws_and_expectations"] = round(time.time() - t0, 1)
     # ---- calibration of the evaluator ------------------------------------------------------------
     from . import c08
-    em, rh = c08.emission(f"{PROP}-{tier}-harmonics", ltree=12, lexact=3)
+    if memo is None:
+        em, rh = c08.emission(f"{PROP}-{tier}-harmonics", ltree=12, lexact=3)
+        try:
+            cal = ylm.calibrate(em, seed=rep.seed, n_random=8, lhigh=40, procs=8)
+        except ylm.CalibrationError as e:
+            raise tlc.MachineryError(f"vf/ylm.py failed its calibration against Harmonics.tla: {e}")
+        if _MEMO["enabled"] and r1.status == "ok":
+            _MEMO[(tier, rep.seed)] = {"r1": r1, "em": em, "rh": rh, "cal": cal,
+                                       "files": {n: (wd / n).read_text() for n in ("bandlimit_expect.json", "bandlimit_modes.json")}}
+    else:
+        em, rh, cal = memo["em"], memo["rh"], memo["cal"]
     rep.tlc(rh, "MC_Harmonics(calibration)")
-    try:
-        cal = ylm.calibrate(em, seed=rep.seed, n_random=8, lhigh=40)
-    except ylm.CalibrationError as e:
-        raise tlc.MachineryError(f"vf/ylm.py failed its calibration against Harmonics.tla: {e}")
     rep.set("ylm_calibration", cal)
     for t in em["trees"]:   # BandLimit!Row and Harmonics!Row are the same rule
         if ylm.row(t["l"], t["m"]) != t["row"]:
@@ -453,15 +889,19 @@ def run(tier: str) -> int:
     y00 = float(evaluate(em["trees"][0]["y"], {"theta": 0, "phi": 0}, "mp"))
     sqrt4pi = 1.0 / y00
 
+    phase["harmonics_calibration"] = round(time.time() - t0, 1)
     # ---- replay -----------------------------------------------------------------------------------
     C = _Check(rep)
     nprng = np.random.default_rng(rep.seed)
-    _SHARED.update(em=em, sqrt4pi=sqrt4pi)
+    _SHARED.update(em=em, sqrt4pi=sqrt4pi, modes=mtab["modes"], classes=mtab["classes"], meridian=mtab["meridian"])
     import multiprocessing as mp_
     nchunk = 64
     jobs = [(cfgs[i::nchunk], expect[i::nchunk]) for i in range(nchunk) if cfgs[i::nchunk]]
+    mol_step = 6 if tier == "quick" else 10
+    jobs += [(cfgs[k: k + 3], "mol") for k in range(1, len(cfgs) - 2, mol_step)]
+    _SHARED["form_every"] = 2 if tier == "quick" else 3
     obs_by_id = {}
-    with mp_.get_context("fork").Pool(16) as pool:
+    with mp_.get_context("fork").Pool(8) as pool:
         for worst, bad, ev, viol, obs in pool.imap_unordered(_work, jobs):
             for k, v in worst.items():
                 C.worst[k] = max(C.worst.get(k, 0.0), v)
@@ -476,6 +916,7 @@ def run(tier: str) -> int:
             for key, what, case in viol:
                 rep.violation(key, what, case)
             obs_by_id.update(dict(obs))
+    phase["replay_pool"] = round(time.time() - t0, 1)
     observations = [obs_by_id[c["id"]] for c in cfgs if c["id"] in obs_by_id]
     for cfg, ex in zip(cfgs[:12], expect[:12]):
         rep.sample({k: cfg[k] for k in ("method", "degs", "kind", "r0", "rotate", "center")} | {"band_limit": ex["adml"], "nsplines": ex["nsplines"]})
@@ -483,6 +924,7 @@ def run(tier: str) -> int:
         _mol_clause(cfgs[k: k + 3], C, rep, nprng)
     C.flush()
 
+    phase["molecular_clause"] = round(time.time() - t0, 1)
     # ---- TLC #2: judge the integer observables ----------------------------------------------------
     with open(wd / "observations.json", "w") as f:
         json.dump(observations, f)
@@ -498,7 +940,17 @@ def run(tier: str) -> int:
                       f"method={m} degrees={ds}: specification: {nsp} splines, retained rows per shell {ret}; "
                       f"implementation: {onsp} splines, non-zero knot rows per shell {onz} (generic function)",
                       {"method": m, "degs": ds, "spec": [nsp, ret], "observed": [onsp, onz]})
+    for t in tlc.tagged(r2.stdout, "MISMATCH-ROUTE"):
+        _, k, m, route, req, act, od = t
+        rep.violation(f"degrees:{m}:{route}:{req}",
+                      f"method={m} request {route} {req}: specification (BandLimit!ActualDegs): shell degrees {act}; "
+                      f"the built grid reports {od}", {"method": m, "route": route, "request": req, "spec": act, "observed": od})
     rep.evaluated(len(observations), None)
+    phase["tlc_judge"] = round(time.time() - t0, 1)
+    rep.set("phase_wall_cumulative_s", phase)
+    rep.set("call_modes", mtab["modes"])
+    rep.set("point_classes", mtab["classes"])
+    rep.set("construction_routes", sorted({c.get("route", "degrees") + "/" + c.get("kind", "") for c in cfgs}))
     rep.set("configurations", len(cfgs))
     rep.set("observations_judged_by_tlc", len(observations))
     rep.set("max_scaled_deviation", {k: v for k, v in sorted(C.worst.items())})
@@ -565,6 +1017,31 @@ def selftest(tier: str) -> int:
         ("cartesian-chain-rule-sign", lambda: _mutant("convert_derivative_from_spherical_to_cartesian", "[np.cos(phi), 0.0, -np.sin(phi) / r],", "[np.cos(phi), 0.0, np.sin(phi) / r],")),
         ("cartesian-chain-rule-missing-sinphi", lambda: _mutant("convert_derivative_from_spherical_to_cartesian", "np.cos(theta) / (r * np.sin(phi)),", "np.cos(theta) / r,")),
     ]
+    U = "convert_derivative_from_spherical_to_cartesian"
+    spl_line = "r_values = np.array([spline(r_pts, deriv) for spline in splines])"
+    muts += [   # ---- audit extension ----
+        ("degrees-stored-as-requested", lambda: _mutate_method(A, "_generate_atomic_grid", "actual_degrees.append(sphere_grid.degree)", "actual_degrees.append(int(deg_i))", ag.__dict__)),
+        ("sizes-route-ignores-method", lambda: _mutate_method(A, "__init__", "convert_angular_sizes_to_degrees(sizes, method=method)", "convert_angular_sizes_to_degrees(sizes, method=\"lebedev\")", ag.__dict__)),
+        ("pruned-sector-bounds-halved", lambda: _mutate_method(A, "_find_degrees_for_radial_points", "radial_points[:, None] > r_sectors[None, :]", "radial_points[:, None] > 0.5 * r_sectors[None, :]", ag.__dict__)),
+        ("method-name-kept-as-given", lambda: _mutate_method(A, "__init__", "self._method = method.lower()", "self._method = method", ag.__dict__)),
+        ("single-point-reshape-dropped", lambda: _mutate_method(A, "convert_cartesian_to_spherical", "if points.ndim == 1:", "if False:", ag.__dict__)),
+        ("angular-integration-in-place", lambda: _mutate_method(A, "integrate_angular_coordinates", "prod_value = func_vals * self.weights", "prod_value = np.multiply(func_vals, self.weights, out=func_vals if func_vals.dtype == np.float64 and func_vals.flags.writeable and func_vals.ndim == 1 else None)", ag.__dict__)),
+        ("stacked-functions-transposed", lambda: _mutate_method(A, "integrate_angular_coordinates", "np.moveaxis(radial_coefficients, 0, -1)", "radial_coefficients.T", ag.__dict__)),
+        ("both-switches-return-spherical", lambda: _mutate_method(A, "interpolate", "if not only_radial_deriv and deriv == 1:", "if (not only_radial_deriv or deriv_spherical) and deriv == 1:", ag.__dict__)),
+        ("radial-switch-with-deriv-0-differentiates", lambda: _mutate_method(A, "interpolate", spl_line, spl_line.replace("(r_pts, deriv)", "(r_pts, max(deriv, 1) if only_radial_deriv else deriv)"), ag.__dict__)),
+        ("extrapolation-clamped-to-last-node", lambda: _mutate_method(A, "interpolate", spl_line, spl_line.replace("(r_pts, deriv)", "(np.minimum(r_pts, self.rgrid.points[-1]), deriv)"), ag.__dict__)),
+        ("cartesian-nan-on-the-axis", lambda: _mutant(U, "if np.abs(phi) < 1e-10:", "if False:")),
+        ("radial-derivative-zeroed-at-the-centre", lambda: _mutate_method(A, "interpolate", "deriv_r = np.einsum(\"ij, ij -> j\", r_values, r_sph_harm)", "deriv_r = np.where(r_pts > 0, np.einsum(\"ij, ij -> j\", r_values, r_sph_harm), 0.0)", ag.__dict__)),
+        ("molecular-spherical-switch-dropped", lambda: _mutate_method(M, "interpolate", "output += interpolate(points, deriv, deriv_spherical, only_radial_derivs)", "output += interpolate(points, deriv, False, only_radial_derivs)", mg.__dict__)),
+        ("molecule-scales-values-in-place", lambda: _mutate_method(M, "interpolate", "func_vals_atom = func_vals * self.aim_weights", "func_vals_atom = np.multiply(func_vals, self.aim_weights, out=func_vals if func_vals.dtype == np.float64 else None)", mg.__dict__)),
+        ("float32-values-projected-in-single-precision", lambda: _mutate_method(A, "radial_component_splines", "values = np.einsum(\"ln,n->ln\", self._basis, func_vals)", "values = np.einsum(\"ln,n->ln\", self._basis.astype(func_vals.dtype) if func_vals.dtype == np.float32 else self._basis, func_vals)", ag.__dict__)),
+        ("integer-values-keep-their-dtype", lambda: _mutate_method(A, "radial_component_splines", "values = np.einsum(\"ln,n->ln\", self._basis, func_vals)", "values = np.einsum(\"ln,n->ln\", self._basis, func_vals).astype(func_vals.dtype if func_vals.dtype.kind in \"iub\" else np.longdouble)", ag.__dict__)),
+        ("points-shifted-in-place", lambda: _mutant("convert_cart_to_sph", "relat_pts = points - center", "relat_pts = np.subtract(points, center, out=points if points.dtype == np.float64 and points.flags.writeable else None)")),
+    ]
+    only = [x for x in __import__("os").environ.get("VERIF_C09_MUTANTS", "").split(",") if x]
+    if only:
+        muts = [mu for mu in muts if any(o in mu[0] for o in only)]
+    _MEMO["enabled"] = True
     missed = []
     for name, apply in muts:
         restore = apply()
@@ -580,5 +1057,6 @@ def selftest(tier: str) -> int:
             missed.append(name)
         print(f"mutant {name:40s} -> {'KILLED' if ok else 'MISSED'} ({len(lines)} keys" + (f", e.g. {lines[0].split('#')[1][:130]}" if lines else "") + ")")
     print(f"selftest: {len(muts) - len(missed)}/{len(muts)} mutants killed; missed: {missed}")
+    _MEMO["enabled"] = False
     run("quick")
     return 0 if not missed else 1
